@@ -39,9 +39,15 @@ pub struct Script {
 impl Script {
     pub fn from_json(v: &Value) -> Script {
         Script {
-            ready_in: v.get("readyIn").and_then(|x| x.as_u64()).unwrap_or(0),
+            ready_in: match v.get("readyIn").and_then(|x| x.as_i64()).unwrap_or(0) {
+                n if n < 0 => u64::MAX, // Pending forever
+                n => n as u64,
+            },
             ready: get_str(v, "ready").to_string(),
-            pend_in: v.get("pendIn").and_then(|x| x.as_u64()).unwrap_or(0),
+            pend_in: match v.get("pendIn").and_then(|x| x.as_i64()).unwrap_or(0) {
+                n if n < 0 => u64::MAX,
+                n => n as u64,
+            },
             answer: get_str(v, "answer").to_string(),
             err_kind: get_str(v, "errKind").to_string(),
             principal: get_i64(v, "principal"),
@@ -49,7 +55,8 @@ impl Script {
         }
     }
     pub fn to_json(&self) -> Value {
-        json!({"readyIn": self.ready_in, "ready": self.ready, "pendIn": self.pend_in, "answer": self.answer,
+        let show = |n: u64| if n == u64::MAX { -1i64 } else { n as i64 };
+        json!({"readyIn": show(self.ready_in), "ready": self.ready, "pendIn": show(self.pend_in), "answer": self.answer,
                "errKind": self.err_kind, "principal": self.principal, "secret": jbytes(&self.secret)})
     }
 }
@@ -108,7 +115,9 @@ impl Future for ProviderFuture {
     type Output = Result<GetSigningKeyResponse, BoxError>;
     fn poll(mut self: Pin<&mut Self>, cx: &mut Context<'_>) -> Poll<Self::Output> {
         if self.pend_left > 0 {
-            self.pend_left -= 1;
+            if self.pend_left != u64::MAX {
+                self.pend_left -= 1;
+            }
             self.events.lock().unwrap().push(json!({"ev": "PollFuture", "ret": "pending"}));
             cx.waker().wake_by_ref();
             return Poll::Pending;
@@ -158,7 +167,9 @@ impl tower::Service<GetSigningKeyRequest> for Provider {
 
     fn poll_ready(&mut self, cx: &mut Context<'_>) -> Poll<Result<(), BoxError>> {
         if self.ready_left > 0 {
-            self.ready_left -= 1;
+            if self.ready_left != u64::MAX {
+                self.ready_left -= 1;
+            }
             self.events.lock().unwrap().push(json!({"ev": "PollReady", "ret": "pending"}));
             cx.waker().wake_by_ref();
             return Poll::Pending;
@@ -386,10 +397,15 @@ fn blank_result(m: &mut Map<String, Value>, res: &str, msg: &str) {
 
 /// Poll a future to completion on this thread with a no-op waker (no runtime, deterministic).
 pub fn block_on<F: Future>(fut: F) -> Option<F::Output> {
+    block_on_n(fut, 100_000)
+}
+
+/// ... giving up (None) after `max_polls` polls: a provider that pends forever never lets the validation complete.
+pub fn block_on_n<F: Future>(fut: F, max_polls: usize) -> Option<F::Output> {
     let mut fut = Box::pin(fut);
     let waker = Waker::noop();
     let mut cx = Context::from_waker(waker);
-    for _ in 0..100_000 {
+    for _ in 0..max_polls {
         if let Poll::Ready(v) = fut.as_mut().poll(&mut cx) {
             return Some(v);
         }
@@ -445,7 +461,7 @@ pub fn end_event(out: Option<Result<Result<(http::request::Parts, Bytes, scratch
         Some(Ok(Err(e))) => match e.downcast::<SignatureError>() {
             Ok(se) => {
                 err_fields(&mut m, &se);
-                m.insert("debug".into(), json!(format!("{:?}", se)));
+                m.insert("debug".into(), json!(ascii_only(&format!("{:?}", se))));
             }
             Err(other) => {
                 blank_result(&mut m, "err", &other.to_string());
@@ -541,17 +557,18 @@ fn run_e2e<S: SignedHeaderRequirements>(
         events,
     };
     let bodykind = get_str(cfg, "bodykind").to_string();
+    let polls = if script.ready_in == u64::MAX || script.pend_in == u64::MAX { 12 } else { 100_000 };
     let out = guarded(|| {
         if bodykind == "vec" {
             let (p, b) = req.into_parts();
             let r = http::Request::from_parts(p, b.to_vec());
-            block_on(sigv4_validate_request(r, &region, &service, &mut provider, now, reqs, opts))
+            block_on_n(sigv4_validate_request(r, &region, &service, &mut provider, now, reqs, opts), polls)
         } else if bodykind == "unit" && req.body().is_empty() {
             let (p, _) = req.into_parts();
             let r = http::Request::from_parts(p, ());
-            block_on(sigv4_validate_request(r, &region, &service, &mut provider, now, reqs, opts))
+            block_on_n(sigv4_validate_request(r, &region, &service, &mut provider, now, reqs, opts), polls)
         } else {
-            block_on(sigv4_validate_request(req, &region, &service, &mut provider, now, reqs, opts))
+            block_on_n(sigv4_validate_request(req, &region, &service, &mut provider, now, reqs, opts), polls)
         }
     });
     match out {
@@ -689,7 +706,7 @@ pub fn run(case: &Value) -> Vec<Value> {
     let id = case.get("id").cloned().unwrap_or(json!(0));
     let req = match built.request() {
         Ok(r) => r,
-        Err(why) => return vec![json!({"ev": "Inadm", "id": id, "why": why, "res": "inadm"})],
+        Err(why) => return vec![json!({"ev": "Inadm", "id": id, "why": ascii_only(&why), "res": "inadm"})],
     };
     // the environment's view of the request (what the http crate hands the library)
     oracle.sha_hex(req.body());
@@ -811,7 +828,13 @@ pub fn run(case: &Value) -> Vec<Value> {
                     "nev": prov_events.len() + 1 + staged.len() + leak_events.len()}));
     out.extend(prov_events);
     out.push(end);
-    out.extend(staged);
+    // rendered texts were only needed for the scan above
+    out.extend(staged.into_iter().map(|mut s| {
+        if let Some(o) = s.as_object_mut() {
+            o.remove("render");
+        }
+        s
+    }));
     out.extend(leak_events);
     out
 }
